@@ -1,6 +1,7 @@
 package main
 
 import (
+	"encoding/json"
 	"fmt"
 	"io"
 	"log"
@@ -58,6 +59,8 @@ func (l procLine) asm() string {
 		return fmt.Sprintf("r2o r%d o%d", l.A, l.B)
 	case "r2m", "m2r":
 		return fmt.Sprintf("%s r%d %d", l.Op, l.A, l.B)
+	case "ro2rri":
+		return fmt.Sprintf("ro2rri r%d r%d", l.A, l.B)
 	}
 	return fmt.Sprintf("%s r%d r%d", l.Op, l.A, l.B)
 }
@@ -92,6 +95,7 @@ func fnVals(v tlaval.Value, n int) []uint64 {
 // procArch is the architecture of the single processor under test.
 type procArch struct {
 	RSize, R, N, M, L int
+	ND                int // ROM data words after the program
 	Ops               []string
 }
 
@@ -115,6 +119,25 @@ func buildProcBM(a procArch, prog string) (*bondmachine.Bondmachine, error) {
 	m, err := mkMachine(a.RSize, a.R, a.N, a.M, a.L, a.Ops, prog)
 	if err != nil {
 		return nil, err
+	}
+	if a.ND > 0 {
+		// the ROM holds the program followed by the data words DataVal(k) of BMProcSem; the program is
+		// assembled again with an address field wide enough for both
+		lines := strings.Count(strings.TrimSpace(prog), "\n") + 1
+		m.Arch.O = uint8(romBits(lines + a.ND))
+		p, err := m.Arch.Assembler([]byte(prog))
+		if err != nil {
+			return nil, err
+		}
+		m.Program = p
+		for k := 0; k < a.ND; k++ {
+			v := 37*uint64(k+1) + 11 // below 2^8 for the three words used
+			w := strconv.FormatUint(v, 2)
+			for len(w) < m.Arch.Max_word() {
+				w = "0" + w
+			}
+			m.Data.Vars = append(m.Data.Vars, w)
+		}
 	}
 	bm := newBM(a.RSize)
 	addProc(bm, m)
@@ -277,7 +300,7 @@ func powerUpZero(sim *vlog.Sim) error {
 	return sim.Settle()
 }
 
-var c01AllOps = []string{"nop", "clr", "inc", "dec", "cil", "cir", "cpy", "add", "sub", "mult", "and", "or", "xor", "nand", "nor", "xnor", "not", "rset", "j", "jz", "i2r", "r2o", "r2m", "m2r"}
+var c01AllOps = []string{"ro2rri", "nop", "clr", "inc", "dec", "cil", "cir", "cpy", "add", "sub", "mult", "and", "or", "xor", "nand", "nor", "xnor", "not", "rset", "j", "jz", "i2r", "r2o", "r2m", "m2r"}
 
 // genProcPrograms runs TLC -simulate on BMProcSem for one architecture and opcode set.
 func genProcPrograms(r *evid.Run, scratch string, a procArch, len0, budget, inputSeed, n int, seed int64) (progs []procProg, transitions int64, ok bool) {
@@ -294,8 +317,8 @@ func genProcPrograms(r *evid.Run, scratch string, a procArch, len0, budget, inpu
 	if m1 == 0 {
 		m1 = 1
 	}
-	cfg := fmt.Sprintf("SPECIFICATION Spec\nCONSTANTS\n RSize = %d\n R = %d\n N = %d\n M = %d\n L = %d\n Len0 = %d\n Budget = %d\n OpSet = {%s}\n InputSeed = %d\nINVARIANT TypeOK\nCHECK_DEADLOCK FALSE\n",
-		a.RSize, a.R, n1, m1, a.L, len0, budget, strings.Join(q, ", "), inputSeed)
+	cfg := fmt.Sprintf("SPECIFICATION Spec\nCONSTANTS\n RSize = %d\n R = %d\n N = %d\n M = %d\n L = %d\n ND = %d\n Len0 = %d\n Budget = %d\n OpSet = {%s}\n InputSeed = %d\nINVARIANT TypeOK\nCHECK_DEADLOCK FALSE\n",
+		a.RSize, a.R, n1, m1, a.L, a.ND, len0, budget, strings.Join(q, ", "), inputSeed)
 	res, err := tlc.Run(tlc.Options{SpecDir: specDir, Module: "BMProcSem", CfgText: cfg, Workers: 1, Timeout: 20 * time.Minute,
 		Args: []string{"-simulate", fmt.Sprintf("file=%s/b,num=%d", dir, n), "-depth", strconv.Itoa(len0 + budget + 3), "-seed", strconv.FormatInt(seed, 10)}})
 	if err != nil {
@@ -332,6 +355,9 @@ func genProcPrograms(r *evid.Run, scratch string, a procArch, len0, budget, inpu
 		for _, st := range beh {
 			if tlaval.Str(st.Vars["phase"]) != "run" {
 				continue
+			}
+			if tlaval.Bool(st.Vars["havoc"]) {
+				break // a ROM read outside the data words: the specification stops here
 			}
 			pc := int(tlaval.Int(st.Vars["pc"]))
 			if prevPc >= 0 && pc != prevPc {
@@ -409,6 +435,9 @@ func runC01(r *evid.Run) {
 		if op != "i2r" {
 			a.N = 0
 		}
+		if op == "ro2rri" {
+			a.ND = 3
+		}
 		a.Ops = uniqueSorted(a.Ops)
 		if !add(a, 8, 24, r.Pick(8, 60), r.Seed*31+int64(i)) {
 			return
@@ -417,8 +446,9 @@ func runC01(r *evid.Run) {
 	// every co-implemented opcode together, over architectures that differ in every field width
 	for i, a := range []procArch{
 		{RSize: 8, R: 2, N: 2, M: 2, L: 0}, {RSize: 16, R: 1, N: 1, M: 1, L: 0}, {RSize: 8, R: 3, N: 3, M: 3, L: 0},
-		{RSize: 16, R: 2, N: 2, M: 4, L: 0}, {RSize: 8, R: 1, N: 1, M: 2, L: 0}} {
+		{RSize: 16, R: 2, N: 2, M: 4, L: 0}, {RSize: 8, R: 1, N: 1, M: 2, L: 0}, {RSize: 8, R: 2, N: 4, M: 2, L: 0}, {RSize: 16, R: 2, N: 3, M: 1, L: 0}} {
 		a.Ops = uniqueSorted(co)
+		a.ND = 3
 		if !add(a, 12, 40, r.Pick(12, 120), r.Seed*37+int64(i)) {
 			return
 		}
@@ -427,7 +457,7 @@ func runC01(r *evid.Run) {
 	// 32- and 64-bit processors, where the two back-ends are compared with each other only
 	nSpec := len(progs)
 	for i, rs := range []int{32, 64} {
-		a := procArch{RSize: 16, R: 2, N: 2, M: 2, L: 0, Ops: uniqueSorted(co)}
+		a := procArch{RSize: 16, R: 2, N: 2, M: 2, L: 0, ND: 3, Ops: uniqueSorted(co)}
 		ps, tr, ok := genProcPrograms(r, scratch, a, 12, 40, 77, r.Pick(10, 80), r.Seed*41+int64(i))
 		if !ok {
 			return
@@ -442,12 +472,25 @@ func runC01(r *evid.Run) {
 	r.Set("transitions", transitions)
 	var compared, retired, agree int64
 	perOp := map[string]int64{}
+	jobs := make([]simJob, len(progs))
+	for i, p := range progs {
+		jobs[i] = simJob{p.Arch, p.text(), p.Inputs, len(p.Trace)}
+	}
+	simResults, err := simTraces(scratch, jobs)
+	if err != nil {
+		r.Inconclusive("cannot run the simulator children: %v", err)
+		return
+	}
 	for pi, p := range progs {
 		text := p.text()
 		want := len(p.Trace)
 		withSpec := pi < nSpec
 		ctx := map[string]interface{}{"architecture": p.Arch, "program": strings.Split(strings.TrimSpace(text), "\n"), "inputs": p.Inputs}
-		st, serr := simTrace(p.Arch, text, p.Inputs, want, 6*want+40)
+		st := simResults[pi].Trace
+		var serr error
+		if simResults[pi].Err != "" {
+			serr = fmt.Errorf("%s", simResults[pi].Err)
+		}
 		ht, herr := hdlTrace(p.Arch, text, p.Inputs, want, 12*want+60, nil)
 		if serr != nil && herr != nil && strings.Contains(serr.Error(), "error processing") {
 			r.Inconclusive("the assembler rejects a program of the specification: %v\n%s", serr, text)
@@ -568,7 +611,7 @@ func uniqueSorted(xs []string) []string {
 // counter and the registers of the optimised hardware with the plain one, and the output streams
 // with the specification's.
 func c01Optimisations(r *evid.Run, scratch string) (n, agree int64) {
-	progs, _, ok := genBasmPrograms(r, scratch, 8, 8, 40, 1, false, false, false, r.Pick(24, 200), r.Seed*47+5)
+	progs, _, ok := genBasmPrograms(r, scratch, 8, 8, 40, 1, false, false, false, r.Pick(90, 500), r.Seed*47+5)
 	if !ok {
 		return -1, 0
 	}
@@ -711,4 +754,94 @@ func c01Optimisations(r *evid.Run, scratch string) (n, agree int64) {
 		}
 	}
 	return n, agree
+}
+
+// ---- the simulator runs in child processes: a panic in one of its worker goroutines kills the
+// process, and a simulator that crashes on a program is a verdict, not a harness failure ----------
+
+type simJob struct {
+	Arch   procArch `json:"arch"`
+	Text   string   `json:"text"`
+	Inputs []uint64 `json:"inputs"`
+	Want   int      `json:"want"`
+}
+
+type simJobResult struct {
+	Idx   int         `json:"idx"`
+	Trace []archState `json:"trace"`
+	Err   string      `json:"err"`
+}
+
+// c01Child: `bmverif C01-child <jobs.json> <from> <out.ndjson>` runs the simulator on jobs[from:].
+func c01Child(jobsPath, fromS, outPath string) int {
+	b, err := os.ReadFile(jobsPath)
+	if err != nil {
+		return 2
+	}
+	var jobs []simJob
+	if json.Unmarshal(b, &jobs) != nil {
+		return 2
+	}
+	from, _ := strconv.Atoi(fromS)
+	f, err := os.OpenFile(outPath, os.O_APPEND|os.O_CREATE|os.O_WRONLY, 0o644)
+	if err != nil {
+		return 2
+	}
+	defer f.Close()
+	enc := json.NewEncoder(f)
+	for i := from; i < len(jobs); i++ {
+		j := jobs[i]
+		tr, err := simTrace(j.Arch, j.Text, j.Inputs, j.Want, 6*j.Want+40)
+		res := simJobResult{Idx: i, Trace: tr}
+		if err != nil {
+			res.Err = err.Error()
+		}
+		enc.Encode(res)
+		f.Sync()
+	}
+	return 0
+}
+
+// simTraces runs every job in child processes and returns, per job, the trace or the error; a job
+// on which the child died is reported as a crash with the tail of the child's output.
+func simTraces(scratch string, jobs []simJob) ([]simJobResult, error) {
+	self, err := os.Executable()
+	if err != nil {
+		return nil, err
+	}
+	jb, _ := json.Marshal(jobs)
+	jobsPath := filepath.Join(scratch, "simjobs.json")
+	outPath := filepath.Join(scratch, "simout.ndjson")
+	os.WriteFile(jobsPath, jb, 0o644)
+	os.Remove(outPath)
+	results := make([]simJobResult, len(jobs))
+	done := 0
+	for done < len(jobs) {
+		out, _ := runTool(scratch, nil, 20*time.Minute, self, "C01-child", jobsPath, strconv.Itoa(done), outPath)
+		got := 0
+		readNDJSON(outPath, func(b []byte) error {
+			var r simJobResult
+			if json.Unmarshal(b, &r) == nil && r.Idx < len(results) {
+				results[r.Idx] = r
+				if r.Idx+1 > got {
+					got = r.Idx + 1
+				}
+			}
+			return nil
+		})
+		if got >= len(jobs) {
+			break
+		}
+		if got < done {
+			got = done
+		}
+		// the child died while it was running job `got`
+		msg := "the simulator process died"
+		if i := strings.Index(out, "panic:"); i >= 0 {
+			msg = firstLine(out[i:])
+		}
+		results[got] = simJobResult{Idx: got, Err: "CRASH: " + msg}
+		done = got + 1
+	}
+	return results, nil
 }
